@@ -61,13 +61,8 @@ func (m *Module) addDataDefinition(d Definition) error {
 
 func (m *Module) addDataDefinitionWithoutOwning(d Definition) error {
 	if c, isChoice := d.(*Choice); isChoice {
-		for _, k := range c.Cases() {
-			for _, kdef := range k.DataDefinitions() {
-				// recurse in case it's another choice
-				if err := m.indexDataDefinition(kdef); err != nil {
-					return err
-				}
-			}
+		if err := m.indexChoiceMembers(c); err != nil {
+			return err
 		}
  	}
 	
@@ -75,6 +70,23 @@ func (m *Module) addDataDefinitionWithoutOwning(d Definition) error {
 		return err
 	}
 	m.dataDefs = append(m.dataDefs, d)
+	return nil
+}
+
+func (m *Module) indexChoiceMembers(c *Choice) error {
+	for _, k := range c.Cases() {
+		for _, kdef := range k.DataDefinitions() {
+			if err := m.indexDataDefinition(kdef); err != nil {
+				return err
+			}
+			// recurse in case it's another choice
+			if nested, isChoice := kdef.(*Choice); isChoice {
+				if err := m.indexChoiceMembers(nested); err != nil {
+					return err
+				}
+			}
+		}
+	}
 	return nil
 }
 
@@ -526,13 +538,8 @@ func (m *ChoiceCase) addDataDefinition(d Definition) error {
 
 func (m *ChoiceCase) addDataDefinitionWithoutOwning(d Definition) error {
 	if c, isChoice := d.(*Choice); isChoice {
-		for _, k := range c.Cases() {
-			for _, kdef := range k.DataDefinitions() {
-				// recurse in case it's another choice
-				if err := m.indexDataDefinition(kdef); err != nil {
-					return err
-				}
-			}
+		if err := m.indexChoiceMembers(c); err != nil {
+			return err
 		}
  	}
 	
@@ -540,6 +547,23 @@ func (m *ChoiceCase) addDataDefinitionWithoutOwning(d Definition) error {
 		return err
 	}
 	m.dataDefs = append(m.dataDefs, d)
+	return nil
+}
+
+func (m *ChoiceCase) indexChoiceMembers(c *Choice) error {
+	for _, k := range c.Cases() {
+		for _, kdef := range k.DataDefinitions() {
+			if err := m.indexDataDefinition(kdef); err != nil {
+				return err
+			}
+			// recurse in case it's another choice
+			if nested, isChoice := kdef.(*Choice); isChoice {
+				if err := m.indexChoiceMembers(nested); err != nil {
+					return err
+				}
+			}
+		}
+	}
 	return nil
 }
 
@@ -730,13 +754,8 @@ func (m *Container) addDataDefinition(d Definition) error {
 
 func (m *Container) addDataDefinitionWithoutOwning(d Definition) error {
 	if c, isChoice := d.(*Choice); isChoice {
-		for _, k := range c.Cases() {
-			for _, kdef := range k.DataDefinitions() {
-				// recurse in case it's another choice
-				if err := m.indexDataDefinition(kdef); err != nil {
-					return err
-				}
-			}
+		if err := m.indexChoiceMembers(c); err != nil {
+			return err
 		}
  	}
 	
@@ -744,6 +763,23 @@ func (m *Container) addDataDefinitionWithoutOwning(d Definition) error {
 		return err
 	}
 	m.dataDefs = append(m.dataDefs, d)
+	return nil
+}
+
+func (m *Container) indexChoiceMembers(c *Choice) error {
+	for _, k := range c.Cases() {
+		for _, kdef := range k.DataDefinitions() {
+			if err := m.indexDataDefinition(kdef); err != nil {
+				return err
+			}
+			// recurse in case it's another choice
+			if nested, isChoice := kdef.(*Choice); isChoice {
+				if err := m.indexChoiceMembers(nested); err != nil {
+					return err
+				}
+			}
+		}
+	}
 	return nil
 }
 
@@ -1026,13 +1062,8 @@ func (m *List) addDataDefinition(d Definition) error {
 
 func (m *List) addDataDefinitionWithoutOwning(d Definition) error {
 	if c, isChoice := d.(*Choice); isChoice {
-		for _, k := range c.Cases() {
-			for _, kdef := range k.DataDefinitions() {
-				// recurse in case it's another choice
-				if err := m.indexDataDefinition(kdef); err != nil {
-					return err
-				}
-			}
+		if err := m.indexChoiceMembers(c); err != nil {
+			return err
 		}
  	}
 	
@@ -1040,6 +1071,23 @@ func (m *List) addDataDefinitionWithoutOwning(d Definition) error {
 		return err
 	}
 	m.dataDefs = append(m.dataDefs, d)
+	return nil
+}
+
+func (m *List) indexChoiceMembers(c *Choice) error {
+	for _, k := range c.Cases() {
+		for _, kdef := range k.DataDefinitions() {
+			if err := m.indexDataDefinition(kdef); err != nil {
+				return err
+			}
+			// recurse in case it's another choice
+			if nested, isChoice := kdef.(*Choice); isChoice {
+				if err := m.indexChoiceMembers(nested); err != nil {
+					return err
+				}
+			}
+		}
+	}
 	return nil
 }
 
@@ -1898,13 +1946,8 @@ func (m *Grouping) addDataDefinition(d Definition) error {
 
 func (m *Grouping) addDataDefinitionWithoutOwning(d Definition) error {
 	if c, isChoice := d.(*Choice); isChoice {
-		for _, k := range c.Cases() {
-			for _, kdef := range k.DataDefinitions() {
-				// recurse in case it's another choice
-				if err := m.indexDataDefinition(kdef); err != nil {
-					return err
-				}
-			}
+		if err := m.indexChoiceMembers(c); err != nil {
+			return err
 		}
  	}
 	
@@ -1912,6 +1955,23 @@ func (m *Grouping) addDataDefinitionWithoutOwning(d Definition) error {
 		return err
 	}
 	m.dataDefs = append(m.dataDefs, d)
+	return nil
+}
+
+func (m *Grouping) indexChoiceMembers(c *Choice) error {
+	for _, k := range c.Cases() {
+		for _, kdef := range k.DataDefinitions() {
+			if err := m.indexDataDefinition(kdef); err != nil {
+				return err
+			}
+			// recurse in case it's another choice
+			if nested, isChoice := kdef.(*Choice); isChoice {
+				if err := m.indexChoiceMembers(nested); err != nil {
+					return err
+				}
+			}
+		}
+	}
 	return nil
 }
 
@@ -2368,13 +2428,8 @@ func (m *RpcInput) addDataDefinition(d Definition) error {
 
 func (m *RpcInput) addDataDefinitionWithoutOwning(d Definition) error {
 	if c, isChoice := d.(*Choice); isChoice {
-		for _, k := range c.Cases() {
-			for _, kdef := range k.DataDefinitions() {
-				// recurse in case it's another choice
-				if err := m.indexDataDefinition(kdef); err != nil {
-					return err
-				}
-			}
+		if err := m.indexChoiceMembers(c); err != nil {
+			return err
 		}
  	}
 	
@@ -2382,6 +2437,23 @@ func (m *RpcInput) addDataDefinitionWithoutOwning(d Definition) error {
 		return err
 	}
 	m.dataDefs = append(m.dataDefs, d)
+	return nil
+}
+
+func (m *RpcInput) indexChoiceMembers(c *Choice) error {
+	for _, k := range c.Cases() {
+		for _, kdef := range k.DataDefinitions() {
+			if err := m.indexDataDefinition(kdef); err != nil {
+				return err
+			}
+			// recurse in case it's another choice
+			if nested, isChoice := kdef.(*Choice); isChoice {
+				if err := m.indexChoiceMembers(nested); err != nil {
+					return err
+				}
+			}
+		}
+	}
 	return nil
 }
 
@@ -2546,13 +2618,8 @@ func (m *RpcOutput) addDataDefinition(d Definition) error {
 
 func (m *RpcOutput) addDataDefinitionWithoutOwning(d Definition) error {
 	if c, isChoice := d.(*Choice); isChoice {
-		for _, k := range c.Cases() {
-			for _, kdef := range k.DataDefinitions() {
-				// recurse in case it's another choice
-				if err := m.indexDataDefinition(kdef); err != nil {
-					return err
-				}
-			}
+		if err := m.indexChoiceMembers(c); err != nil {
+			return err
 		}
  	}
 	
@@ -2560,6 +2627,23 @@ func (m *RpcOutput) addDataDefinitionWithoutOwning(d Definition) error {
 		return err
 	}
 	m.dataDefs = append(m.dataDefs, d)
+	return nil
+}
+
+func (m *RpcOutput) indexChoiceMembers(c *Choice) error {
+	for _, k := range c.Cases() {
+		for _, kdef := range k.DataDefinitions() {
+			if err := m.indexDataDefinition(kdef); err != nil {
+				return err
+			}
+			// recurse in case it's another choice
+			if nested, isChoice := kdef.(*Choice); isChoice {
+				if err := m.indexChoiceMembers(nested); err != nil {
+					return err
+				}
+			}
+		}
+	}
 	return nil
 }
 
@@ -2844,13 +2928,8 @@ func (m *Notification) addDataDefinition(d Definition) error {
 
 func (m *Notification) addDataDefinitionWithoutOwning(d Definition) error {
 	if c, isChoice := d.(*Choice); isChoice {
-		for _, k := range c.Cases() {
-			for _, kdef := range k.DataDefinitions() {
-				// recurse in case it's another choice
-				if err := m.indexDataDefinition(kdef); err != nil {
-					return err
-				}
-			}
+		if err := m.indexChoiceMembers(c); err != nil {
+			return err
 		}
  	}
 	
@@ -2858,6 +2937,23 @@ func (m *Notification) addDataDefinitionWithoutOwning(d Definition) error {
 		return err
 	}
 	m.dataDefs = append(m.dataDefs, d)
+	return nil
+}
+
+func (m *Notification) indexChoiceMembers(c *Choice) error {
+	for _, k := range c.Cases() {
+		for _, kdef := range k.DataDefinitions() {
+			if err := m.indexDataDefinition(kdef); err != nil {
+				return err
+			}
+			// recurse in case it's another choice
+			if nested, isChoice := kdef.(*Choice); isChoice {
+				if err := m.indexChoiceMembers(nested); err != nil {
+					return err
+				}
+			}
+		}
+	}
 	return nil
 }
 
@@ -3108,13 +3204,8 @@ func (m *Augment) addDataDefinition(d Definition) error {
 
 func (m *Augment) addDataDefinitionWithoutOwning(d Definition) error {
 	if c, isChoice := d.(*Choice); isChoice {
-		for _, k := range c.Cases() {
-			for _, kdef := range k.DataDefinitions() {
-				// recurse in case it's another choice
-				if err := m.indexDataDefinition(kdef); err != nil {
-					return err
-				}
-			}
+		if err := m.indexChoiceMembers(c); err != nil {
+			return err
 		}
  	}
 	
@@ -3122,6 +3213,23 @@ func (m *Augment) addDataDefinitionWithoutOwning(d Definition) error {
 		return err
 	}
 	m.dataDefs = append(m.dataDefs, d)
+	return nil
+}
+
+func (m *Augment) indexChoiceMembers(c *Choice) error {
+	for _, k := range c.Cases() {
+		for _, kdef := range k.DataDefinitions() {
+			if err := m.indexDataDefinition(kdef); err != nil {
+				return err
+			}
+			// recurse in case it's another choice
+			if nested, isChoice := kdef.(*Choice); isChoice {
+				if err := m.indexChoiceMembers(nested); err != nil {
+					return err
+				}
+			}
+		}
+	}
 	return nil
 }
 
@@ -4067,13 +4175,8 @@ func (m *Extension) addDataDefinition(d Definition) error {
 
 func (m *Extension) addDataDefinitionWithoutOwning(d Definition) error {
 	if c, isChoice := d.(*Choice); isChoice {
-		for _, k := range c.Cases() {
-			for _, kdef := range k.DataDefinitions() {
-				// recurse in case it's another choice
-				if err := m.indexDataDefinition(kdef); err != nil {
-					return err
-				}
-			}
+		if err := m.indexChoiceMembers(c); err != nil {
+			return err
 		}
  	}
 	
@@ -4081,6 +4184,23 @@ func (m *Extension) addDataDefinitionWithoutOwning(d Definition) error {
 		return err
 	}
 	m.dataDefs = append(m.dataDefs, d)
+	return nil
+}
+
+func (m *Extension) indexChoiceMembers(c *Choice) error {
+	for _, k := range c.Cases() {
+		for _, kdef := range k.DataDefinitions() {
+			if err := m.indexDataDefinition(kdef); err != nil {
+				return err
+			}
+			// recurse in case it's another choice
+			if nested, isChoice := kdef.(*Choice); isChoice {
+				if err := m.indexChoiceMembers(nested); err != nil {
+					return err
+				}
+			}
+		}
+	}
 	return nil
 }
 
